@@ -115,7 +115,7 @@ def run_steps(goit, steps_or_gen, nsteps, tz="UTC", tz_offset=0, base=None):
                     continue          # an edit that the file system refuses is dropped from the history
                 r.res = None
             else:
-                r.res = sb.run(st.argv)
+                r.res = sb.run(st.real_argv)
             r.after = Snap(sb)
             r.new_objs = [k for k in r.after.objects if k not in prev.objects]
             for k in r.new_objs:
